@@ -260,8 +260,8 @@ Proof.
 Qed.
 
 (* the gate loop never runs out of fuel; it can only panic without the bound check *)
-Lemma mpclc_gates_ok fx9 fuel : forall ng r s gate acc, rd_ok r -> (rlen r < fuel)%nat ->
-  match mpclc_gates fx9 fuel ng r s gate acc with
+Lemma mpclc_gates_ok fx9 iw fuel : forall ng r s gate acc, rd_ok r -> (rlen r < fuel)%nat ->
+  match mpclc_gates fx9 iw fuel ng r s gate acc with
   | Fuel => False | Panic => fx9 = false | _ => True end.
 Proof.
   induction fuel as [|f IH]; intros ng r s gate acc Hok Hf; [lia|]. cbn [mpclc_gates].
@@ -271,7 +271,7 @@ Proof.
   destruct (op_of_code opb) as [o|]; [|exact I].
   assert (Hstep : forall n (l : list byte) r2 s' acc', good n r1 (Ok (l, r2)) ->
             match (if ng <=? gate then Panic
-                   else mpclc_gates fx9 f ng r2 s' (gate + 1) acc') with
+                   else mpclc_gates fx9 iw f ng r2 s' (gate + 1) acc') with
             | Fuel => False | Panic => fx9 = false | _ => True end).
   { intros n l r2 s' acc' [Hok2 Hl2]. destruct (ng <=? gate).
     - destruct fx9; [discriminate|reflexivity].
@@ -285,13 +285,13 @@ Proof.
        cbn [bind]; try exact I; try contradiction;
        match goal with |- context [check_in ?ss ?i] => pose proof (Hchk i) as H4; destruct (check_in ss i) end;
        cbn [bind]; try exact I; try contradiction;
-       destruct (seen_set s _) as [s'|]; try exact I;
+       destruct (seen_set_chk iw s _) as [s'|]; try exact I;
        apply (Hstep 12%nat l); exact H2.
   pose proof (good_read_full 8 r1 Hok1) as H2.
   destruct (read_full 8 r1) as [[l r2]| | |]; cbn [bind]; try exact I; try (simpl in H2; contradiction).
   match goal with |- context [check_in ?ss ?i] => pose proof (Hchk i) as H3; destruct (check_in ss i) end;
     cbn [bind]; try exact I; try contradiction.
-  destruct (seen_set s _) as [s'|]; try exact I.
+  destruct (seen_set_chk iw s _) as [s'|]; try exact I.
   apply (Hstep 8%nat l); exact H2.
 Qed.
 
@@ -315,9 +315,9 @@ Proof.
     cbn [bind]; try exact I; try (simpl in H3; contradiction).
   destruct H3 as [Hok3 Hl3].
   destruct (mark_inputs _ _) as [s0|]; [|exact I].
-  match goal with |- context [mpclc_gates fx9 ?f ?ng r3 s0 0 []] =>
-    pose proof (mpclc_gates_ok fx9 f ng r3 s0 0 [] Hok3 ltac:(lia)) as H4;
-    destruct (mpclc_gates fx9 f ng r3 s0 0 []) as [[[gs s] gate]| | |] end; cbn [bind]; auto.
+  match goal with |- context [mpclc_gates fx9 ?iw ?f ?ng r3 s0 0 []] =>
+    pose proof (mpclc_gates_ok fx9 iw f ng r3 s0 0 [] Hok3 ltac:(lia)) as H4;
+    destruct (mpclc_gates fx9 iw f ng r3 s0 0 []) as [[[gs s] gate]| | |] end; cbn [bind]; auto.
   destruct (negb _); [exact I|]. destruct (negb _); exact I.
 Qed.
 
@@ -329,9 +329,9 @@ Proof. intros E. pose proof (parse_mpclc_class true fx10 bs) as H. rewrite E in 
 
 (* F9: witness *)
 Definition f9_witness : list byte :=
-  be32 (Z.to_N circuit_MAGIC) ++ be32 0 ++ be32 1 ++ be32 1 ++ be32 0 ++
+  be32 (Z.to_N circuit_MAGIC) ++ be32 0 ++ be32 2 ++ be32 1 ++ be32 0 ++
   be32 0 ++ be32 2 ++ [117; 49] ++ be32 1 ++ be32 0 ++
-  [0] ++ be32 0 ++ be32 0 ++ be32 0.
+  [0] ++ be32 0 ++ be32 0 ++ be32 1.
 
 (* regression record: before commit 99bac0d the parser crashed on this file *)
 Lemma mpclc_prefix_no_panic_refuted : exists bs, ParseMPCLC_prefix bs = Panic.
@@ -355,13 +355,18 @@ Fixpoint dbu (nw : N) (def : N -> Prop) (gs : list gateN) : Prop :=
 Definition defs (def : N -> Prop) (gs : list gateN) (w : N) : Prop :=
   def w \/ exists g, In g gs /\ g_out g = w.
 
+(* no gate writes an input wire (commit 407ba55) *)
+Definition no_input_overwrite (iw : Z) (gs : list gateN) : Prop :=
+  Forall (fun g => (iw <= Z.of_N (g_out g))%Z) gs.
+
 Definition parse_sound (c : fcircuit) : Prop :=
   let nw := Z.to_N (c_numwires c) in
   let def := fun w => (Z.of_N w < io_size (c_inputs c))%Z in
   (0 <= c_numwires c)%Z /\ (io_size (c_inputs c) <= c_numwires c)%Z /\
   Z.of_nat (length (c_gates c)) = c_numgates c /\
   dbu nw def (c_gates c) /\
-  (forall w, w < nw -> defs def (c_gates c) w).
+  (forall w, w < nw -> defs def (c_gates c) w) /\
+  no_input_overwrite (io_size (c_inputs c)) (c_gates c).
 
 Definition smem (s : seen) (w : N) : bool := PositiveSet.mem (N.succ_pos w) (s_set s).
 
@@ -396,16 +401,24 @@ Proof.
   - intros [[H|H]|(g' & Hin & E)]; [left; auto|right; exists g; auto|right; exists g'; auto].
 Qed.
 
-Lemma mpclc_gates_sound fx9 fuel : forall ng r s gate acc gs s' n,
-  mpclc_gates fx9 fuel ng r s gate acc = Ok (gs, s', n) ->
+Lemma seen_set_chk_some iw s o s' : seen_set_chk iw s o = Some s' ->
+  seen_set s o = Some s' /\ (iw <= Z.of_N o)%Z.
+Proof.
+  unfold seen_set_chk. destruct (Z.of_N o <? iw)%Z eqn:E; [discriminate|]. apply Z.ltb_ge in E. auto.
+Qed.
+
+Lemma mpclc_gates_sound fx9 iw fuel : forall ng r s gate acc gs s' n,
+  mpclc_gates fx9 iw fuel ng r s gate acc = Ok (gs, s', n) ->
   exists new, gs = rev acc ++ new /\ n = gate + nlen new /\ s_len s' = s_len s /\
+    no_input_overwrite iw new /\
     forall def : N -> Prop, (forall w, smem s w = true <-> def w) ->
       dbu (s_len s) def new /\ (forall w, smem s' w = true <-> defs def new w).
 Proof.
   induction fuel as [|f IH]; intros ng r s gate acc gs s' n; [discriminate|]. cbn [mpclc_gates].
   destruct (read_byte r) as [[opb r1]|].
-  2:{ intros H; inversion H; subst. exists []. rewrite app_nil_r. repeat split; auto.
-      - unfold nlen; simpl; lia.
+  2:{ intros H; inversion H; subst. exists []. rewrite app_nil_r.
+      split; [reflexivity|]. split; [unfold nlen; simpl; lia|]. split; [reflexivity|]. split; [constructor|].
+      intros def H0. split; [exact I|]. intros w. split.
       - intros Hw. unfold defs. left. apply H0; auto.
       - intros [Hd|(g & [] & _)]. apply H0; auto. }
   destruct (fx9 && (ng <=? gate)); [discriminate|].
@@ -413,17 +426,19 @@ Proof.
   assert (Hstep : forall g r2 s1,
             (g_in0 g < s_len s /\ smem s (g_in0 g) = true) ->
             (g_op g <> INV -> g_in1 g < s_len s /\ smem s (g_in1 g) = true) ->
-            seen_set s (g_out g) = Some s1 ->
+            seen_set_chk iw s (g_out g) = Some s1 ->
             (if ng <=? gate then Panic
-             else mpclc_gates fx9 f ng r2 s1 (gate + 1) (g :: acc)) = Ok (gs, s', n) ->
+             else mpclc_gates fx9 iw f ng r2 s1 (gate + 1) (g :: acc)) = Ok (gs, s', n) ->
             exists new, gs = rev acc ++ new /\ n = gate + nlen new /\ s_len s' = s_len s /\
+              no_input_overwrite iw new /\
               forall def : N -> Prop, (forall w, smem s w = true <-> def w) ->
                 dbu (s_len s) def new /\ (forall w, smem s' w = true <-> defs def new w)).
-  { intros g r2 s1 H0 H1 Hset. destruct (seen_set_ok _ _ _ Hset) as (Ho & Hlen & Hmem).
+  { intros g r2 s1 H0 H1 Hchk. destruct (seen_set_chk_some _ _ _ _ Hchk) as [Hset Hiw].
+    destruct (seen_set_ok _ _ _ Hset) as (Ho & Hlen & Hmem).
     destruct (ng <=? gate); [discriminate|]. intros H.
-    destruct (IH _ _ _ _ _ _ _ _ H) as (new & -> & -> & Hl & Hinv).
+    destruct (IH _ _ _ _ _ _ _ _ H) as (new & -> & -> & Hl & Hnio & Hinv).
     exists (g :: new). split; [simpl rev; rewrite <- app_assoc; reflexivity|].
-    split; [unfold nlen; simpl length; lia|]. split; [congruence|].
+    split; [unfold nlen; simpl length; lia|]. split; [congruence|]. split; [constructor; assumption|].
     intros def H2. destruct (Hinv (fun w => def w \/ w = g_out g)) as [Hd Hm].
     { intros w. rewrite Hmem. rewrite H2. reflexivity. }
     split.
@@ -434,13 +449,13 @@ Proof.
   1-4: destruct (read_full 12 r1) as [[l r2]| | |]; cbn [bind]; try discriminate;
        match goal with |- context [check_in ?ss ?i] => destruct (check_in ss i) eqn:E1 end; cbn [bind]; try discriminate;
        match goal with |- context [bind (check_in ?ss ?i)] => destruct (check_in ss i) eqn:E2 end; cbn [bind]; try discriminate;
-       match goal with |- context [seen_set ?ss ?o] => destruct (seen_set ss o) as [s1|] eqn:E3 end; try discriminate;
-       match goal with |- context [mpclc_gates _ _ _ _ _ _ (?g :: _)] => apply (Hstep g r2 s1) end; simpl;
+       match goal with |- context [seen_set_chk ?ii ?ss ?o] => destruct (seen_set_chk ii ss o) as [s1|] eqn:E3 end; try discriminate;
+       match goal with |- context [mpclc_gates _ _ _ _ _ _ _ (?g :: _)] => apply (Hstep g r2 s1) end; simpl;
        [ apply (check_in_ok _ _ _ E1) | intros _; apply (check_in_ok _ _ _ E2) | exact E3 ].
   destruct (read_full 8 r1) as [[l r2]| | |]; cbn [bind]; try discriminate.
   match goal with |- context [check_in ?ss ?i] => destruct (check_in ss i) eqn:E1 end; cbn [bind]; try discriminate.
-  match goal with |- context [seen_set ?ss ?o] => destruct (seen_set ss o) as [s1|] eqn:E3 end; try discriminate.
-  match goal with |- context [mpclc_gates _ _ _ _ _ _ (?g :: _)] => apply (Hstep g r2 s1) end; simpl;
+  match goal with |- context [seen_set_chk ?ii ?ss ?o] => destruct (seen_set_chk ii ss o) as [s1|] eqn:E3 end; try discriminate.
+  match goal with |- context [mpclc_gates _ _ _ _ _ _ _ (?g :: _)] => apply (Hstep g r2 s1) end; simpl;
     [ apply (check_in_ok _ _ _ E1) | intros C; exfalso; apply C; reflexivity | exact E3 ].
 Qed.
 
@@ -487,8 +502,8 @@ Proof.
   destruct (parse_ioargs fx10 _ _ r2) as [[outs r3]| | |]; cbn [bind]; try discriminate.
   destruct (mark_inputs _ _) as [s0|] eqn:Em; [|discriminate].
   destruct (mark_inputs_ok _ _ _ Em) as (Hl0 & Hiw & Hm0).
-  destruct (mpclc_gates fx9 _ _ r3 s0 0 []) as [[[gs s] gate]| | |] eqn:Eg; cbn [bind]; try discriminate.
-  destruct (mpclc_gates_sound _ _ _ _ _ _ _ _ _ _ Eg) as (new & -> & -> & Hl & Hinv).
+  destruct (mpclc_gates fx9 _ _ _ r3 s0 0 []) as [[[gs s] gate]| | |] eqn:Eg; cbn [bind]; try discriminate.
+  destruct (mpclc_gates_sound _ _ _ _ _ _ _ _ _ _ _ Eg) as (new & -> & -> & Hl & Hnio & Hinv).
   destruct (negb (0 + nlen new =? _)) eqn:E1; [discriminate|].
   destruct (negb (all_seen s)) eqn:E2; [discriminate|].
   apply negb_false_iff in E1, E2. apply N.eqb_eq in E1.
@@ -500,6 +515,7 @@ Proof.
   - rewrite <- E1. unfold nlen. simpl. lia.
   - exact Hd.
   - intros w Hw. apply Hm. apply all_seen_ok; auto. rewrite Hl. exact Hw.
+  - exact Hnio.
 Qed.
 
 (* ================================================================== *)
@@ -588,16 +604,16 @@ Proof.
   specialize (IH (S base) s ltac:(lia)). destruct (bristol_ins line (S base) k s); simpl in *; auto.
 Qed.
 
-Lemma bristol_outs_np line : forall n base s, (base + n <= length line)%nat -> ok_or_err (bristol_outs line base n s).
+Lemma bristol_outs_np iw line : forall n base s, (base + n <= length line)%nat -> ok_or_err (bristol_outs iw line base n s).
 Proof.
   induction n as [|k IH]; intros base s H; simpl; [exact I|].
   destruct (nth_error line base) as [f|] eqn:E.
   2:{ apply nth_error_None in E. lia. }
-  destruct (parse_uint32 f); [|exact I]. destruct (seen_set s n) as [s'|]; [|exact I].
-  specialize (IH (S base) s' ltac:(lia)). destruct (bristol_outs line (S base) k s') as [[l s'']| | |]; simpl in *; auto.
+  destruct (parse_uint32 f); [|exact I]. destruct (seen_set_chk iw s n) as [s'|]; [|exact I].
+  specialize (IH (S base) s' ltac:(lia)). destruct (bristol_outs iw line (S base) k s') as [[l s'']| | |]; simpl in *; auto.
 Qed.
 
-Lemma bristol_gate_line_np line s : ok_or_err (bristol_gate_line line s).
+Lemma bristol_gate_line_np iw line s : ok_or_err (bristol_gate_line iw line s).
 Proof.
   unfold bristol_gate_line. destruct (length line <? 3)%nat eqn:El; [exact I|]. apply Nat.ltb_ge in El.
   destruct (nth_error line 0) as [f0|] eqn:E0. 2:{ apply nth_error_None in E0. lia. }
@@ -611,19 +627,19 @@ Proof.
   assert (Hb2 : (2 + Z.to_nat n1 + Z.to_nat n2 <= length line)%nat) by lia.
   pose proof (bristol_ins_np line (Z.to_nat n1) 2%nat s Hb1) as Hi.
   destruct (bristol_ins line 2 (Z.to_nat n1) s) as [ins| | |]; cbn [bind]; try exact I; try contradiction.
-  pose proof (bristol_outs_np line (Z.to_nat n2) (2 + Z.to_nat n1)%nat s Hb2) as Ho.
-  destruct (bristol_outs line (2 + Z.to_nat n1) (Z.to_nat n2) s) as [[outs s']| | |]; cbn [bind]; try exact I; try contradiction.
+  pose proof (bristol_outs_np iw line (Z.to_nat n2) (2 + Z.to_nat n1)%nat s Hb2) as Ho.
+  destruct (bristol_outs iw line (2 + Z.to_nat n1) (Z.to_nat n2) s) as [[outs s']| | |]; cbn [bind]; try exact I; try contradiction.
   destruct (op_of_name (last line [])) as [o|]; [|exact I].
   destruct ins as [|i0 rest]; [destruct o; exact I|].
   destruct (negb _); [exact I|]. destruct outs as [|o1 ?]; [exact I|]. destruct (negb _); exact I.
 Qed.
 
-Lemma bristol_gates_np ng lines : forall s gate, ok_or_err (bristol_gates ng lines s gate).
+Lemma bristol_gates_np iw ng lines : forall s gate, ok_or_err (bristol_gates iw ng lines s gate).
 Proof.
   induction lines as [|line rest IH]; intros s gate; simpl; [exact I|].
   destruct (ng <=? gate)%Z; [exact I|].
-  pose proof (bristol_gate_line_np line s) as H. destruct (bristol_gate_line line s) as [[g s']| | |]; simpl in *; auto.
-  specialize (IH s' (gate + 1)%Z). destruct (bristol_gates ng rest s' (gate + 1)%Z) as [[[gs s''] n]| | |]; simpl in *; auto.
+  pose proof (bristol_gate_line_np iw line s) as H. destruct (bristol_gate_line iw line s) as [[g s']| | |]; simpl in *; auto.
+  specialize (IH s' (gate + 1)%Z). destruct (bristol_gates iw ng rest s' (gate + 1)%Z) as [[[gs s''] n]| | |]; simpl in *; auto.
 Qed.
 
 Lemma bristol_io_np pre fs : forall i, ok_or_err (bristol_io pre i fs).
@@ -650,8 +666,8 @@ Proof.
   destruct l3 as [|h0 ht]; [congruence|].
   destruct (atoi h0) as [nov|]; [|exact I]. destruct (negb _); [exact I|].
   pose proof (bristol_io_np [78; 79] ht 1) as Ho. destruct (bristol_io [78; 79] 1 ht) as [outs| | |]; simpl in *; auto.
-  pose proof (bristol_gates_np ng rest3 s0 0%Z) as Hg.
-  destruct (bristol_gates ng rest3 s0 0%Z) as [[[gs s] gate]| | |]; simpl in *; auto.
+  pose proof (bristol_gates_np (io_size ins) ng rest3 s0 0%Z) as Hg.
+  destruct (bristol_gates (io_size ins) ng rest3 s0 0%Z) as [[[gs s] gate]| | |]; simpl in *; auto.
   destruct (negb _); [exact I|]. destruct (negb _); exact I.
 Qed.
 
